@@ -1,4 +1,4 @@
-(* C19 - completeness of the outline: top-level locals (last declaration of each name), globals. *)
+(* C19 - completeness of the outline: top-level locals (every declaration), globals. *)
 From Coq Require Import List NArith ZArith Bool Lia.
 From LH Require Import Base.Bytes Base.Res Model.Lexer Model.Ast Model.Parser Model.LuaFront Model.Symbols Spec.SymbolSpec
   Proofs.SymbolsRange Proofs.SymbolsLocs Proofs.SymbolsMerge Proofs.SymbolsSig Proofs.SymbolsGlobals Proofs.SymbolsLexical
@@ -8,8 +8,12 @@ Import ListNotations.
 (* ------------------------------------------------------------------ globals *)
 (* any_name, any_target, not_named: Proofs/SymbolsLexical.v *)
 
-(* what the outline shows of an entry: key, declaring identifier, range if function-valued *)
-Definition entry_triple (s : sym) : gtriple := (s_key s, s_decl s, if s_fn s then Some (s_loc s) else None).
+(* what a non-local entry shows of the assignment target it stems from: (name, identifier Loc, Loc of the function
+   literal if the value at the same index is one) satisfies pt, the entry is function-valued iff there is such a literal
+   and then its range is the Union of the literal and the identifier *)
+Definition from_target (fx : fixes) (pt : gtriple -> bool) (s : sym) : Prop :=
+  exists ofl, pt (s_key s, s_decl s, ofl) = true /\ s_fn s = is_some ofl /\
+              forall fl, ofl = Some fl -> s_loc s = fn_range fx fl (s_decl s).
 
 Lemma init_pre : forall pb pt, pre pb pt init_state.
 Proof.
@@ -25,29 +29,32 @@ Proof.
   eapply Hb; [exact Hc | apply init_pre | exact H].
 Qed.
 
-Lemma var_sym_triple : forall fx lc nm v, entry_triple (var_sym fx lc nm v) = gtrip (nm, v).
+Lemma var_sym_from_target : forall fx pt lc nm v, pt (gtrip (nm, v)) = true -> from_target fx pt (var_sym fx lc nm v).
 Proof.
-  intros fx lc nm v. unfold entry_triple, gtrip. rewrite var_sym_key, var_sym_decl, var_sym_fn. cbn [fst snd].
-  destruct (v_func v) as [fi|] eqn:Ef; cbn [is_some option_map]; [|reflexivity].
-  rewrite (var_sym_fn_loc fx lc nm v fi Ef). reflexivity.
+  intros fx pt lc nm v H. exists (option_map f_loc (v_func v)). rewrite var_sym_key, var_sym_decl, var_sym_fn.
+  split; [exact H|]. split; [destruct (v_func v); reflexivity|].
+  intros fl Hfl. destruct (v_func v) as [fi|] eqn:Ef; [|discriminate]. cbn [option_map] in Hfl. injection Hfl as <-.
+  apply (var_sym_fn_loc fx lc nm v fi Ef).
 Qed.
 
 Lemma nonlocal_entry : forall fx st s,
-    In s (find_all_symbol fx st) -> s_local s = false -> exists nm v, In (nm, v) (globs st) /\ s = var_sym fx false nm v.
+    In s (find_all_symbol fx st) -> s_local s = false -> s_undecl s = false ->
+    exists nm v, In (nm, v) (globs st) /\ s = var_sym fx false nm v.
 Proof.
-  intros fx st s Hin Hl. unfold find_all_symbol in Hin. apply in_app_or in Hin. destruct Hin as [Hin|Hin].
+  intros fx st s Hin Hl Hu. apply find_all_symbol_parts in Hin. destruct Hin as [Hin|[Hin|Hin]].
   - destruct (find_all_local_entry (fun _ => True) fx _ _ _ (scope_all_True _) Hin) as [nm [v [_ [_ ->]]]].
     rewrite var_sym_local in Hl. discriminate.
-  - apply in_map_iff in Hin. destruct Hin as [[nm v] [<- Hin]]. exists nm, v. auto.
+  - exact Hin.
+  - apply undeclared_syms_in in Hin. destruct Hin as [_ [nm [v [_ [_ [_ ->]]]]]]. cbn [set_undecl s_undecl] in Hu. discriminate.
 Qed.
 
-(* (G1) every non-local entry stems from an assignment target of the file *)
+(* (G1) every non-local entry of a defined name stems from an assignment target of the file *)
 Theorem outline_global_from_target : forall pt fx n b st s,
     chk_block any_name pt b = true -> analyse n b = Ok st ->
-    In s (find_all_symbol fx (finalize st)) -> s_local s = false -> pt (entry_triple s) = true.
+    In s (find_all_symbol fx (finalize st)) -> s_local s = false -> s_undecl s = false -> from_target fx pt s.
 Proof.
-  intros pt fx n b st s Hc Ha Hin Hl. destruct (analyse_post _ _ _ _ _ Hc Ha) as [[_ HG] _].
-  destruct (nonlocal_entry _ _ _ Hin Hl) as [nm [v' [Hg ->]]]. rewrite var_sym_triple.
+  intros pt fx n b st s Hc Ha Hin Hl Hu. destruct (analyse_post _ _ _ _ _ Hc Ha) as [[_ HG] _].
+  destruct (nonlocal_entry _ _ _ Hin Hl Hu) as [nm [v' [Hg ->]]]. apply var_sym_from_target.
   destruct (finalize_facts st) as [_ [_ [_ Hext]]]. destruct (gext_in _ _ _ _ _ Hext Hg) as [v [Hv Hvx]].
   specialize (HG _ Hv). unfold gtrip in *. cbn [fst snd] in *.
   rewrite (vext_loc _ _ _ Hvx), (vext_func _ _ _ Hvx). exact HG.
@@ -56,7 +63,7 @@ Qed.
 (* (G2) every assigned name that nothing in the file binds has a non-local entry *)
 Theorem outline_global_complete : forall fx n b st nm,
     chk_block (not_named nm) any_target b = true -> asg_block nm b = true -> analyse n b = Ok st ->
-    exists s, In s (find_all_symbol fx (finalize st)) /\ s_local s = false /\ s_key s = nm.
+    exists s, In s (find_all_symbol fx (finalize st)) /\ s_local s = false /\ s_undecl s = false /\ s_key s = nm.
 Proof.
   intros fx n b st nm Hc Hasg Ha. destruct (analyse_post _ _ _ _ _ Hc Ha) as [_ [_ HD]].
   assert (Hm : assoc_mem nm (globs st) = true).
@@ -64,8 +71,8 @@ Proof.
   unfold assoc_mem in Hm. destruct (assoc_get nm (globs st)) as [v|] eqn:Eg; [|discriminate].
   apply assoc_get_key in Eg. destruct (finalize_facts st) as [_ [_ [_ Hext]]].
   destruct (gext_in_l _ _ _ _ _ Hext Eg) as [v' [Hv' _]].
-  exists (var_sym fx false nm v'). rewrite var_sym_local, var_sym_key. split; [|auto].
-  unfold find_all_symbol. apply in_or_app. right. apply in_map_iff. exists (nm, v'). auto.
+  exists (var_sym fx false nm v'). rewrite var_sym_local, var_sym_undecl, var_sym_key. split; [|auto].
+  unfold find_all_symbol. apply in_or_app. right. apply in_or_app. left. apply in_map_iff. exists (nm, v'). auto.
 Qed.
 
 (* (G3) lexical version of (G2): nm is assigned at a place where no enclosing local / parameter / loop variable named nm
@@ -75,78 +82,60 @@ Proof. intros nm. unfold Kn, Kinv, init_state. cbn [env]. constructor; [|constru
 
 Theorem outline_global_lexical : forall fx n b st nm,
     shp_block b = true -> asgU_block nm b = true -> analyse n b = Ok st ->
-    exists s, In s (find_all_symbol fx (finalize st)) /\ s_local s = false /\ s_key s = nm.
+    exists s, In s (find_all_symbol fx (finalize st)) /\ s_local s = false /\ s_undecl s = false /\ s_key s = nm.
 Proof.
   intros fx n b st nm Hshp Hasg Ha. unfold analyse in Ha.
   destruct (all_u nm n) as [_ [_ [_ Hb]]]. pose proof (Hb _ _ _ _ _ Hshp (init_Kn nm) Ha Hasg) as Hm.
   unfold M, assoc_mem in Hm. destruct (assoc_get nm (globs st)) as [v|] eqn:Eg; [|discriminate].
   apply assoc_get_key in Eg. destruct (finalize_facts st) as [_ [_ [_ Hext]]].
   destruct (gext_in_l _ _ _ _ _ Hext Eg) as [v' [Hv' _]].
-  exists (var_sym fx false nm v'). rewrite var_sym_local, var_sym_key. split; [|auto].
-  unfold find_all_symbol. apply in_or_app. right. apply in_map_iff. exists (nm, v'). auto.
+  exists (var_sym fx false nm v'). rewrite var_sym_local, var_sym_undecl, var_sym_key. split; [|auto].
+  unfold find_all_symbol. apply in_or_app. right. apply in_or_app. left. apply in_map_iff. exists (nm, v'). auto.
 Qed.
 
 (* ------------------------------------------------------------------ from bytes *)
-Definition top_local_last (b : block) (nm : bytes) : option vsig := last_opt (decls_named nm (top_locals b)).
+(* the top-level `local` / `local function` declarations of nm in the main block, in order: (identifier Loc, false,
+   Loc of the function literal if the value is one) *)
+Definition top_local_decls (b : block) (nm : bytes) : list vsig := decls_named nm (top_locals b).
 
 Theorem outline_complete_bytes : forall bs b ss,
-    parse_bytes no_gbk classify_tok bs = Ok (PR b [] []) -> outline_of_bytes true bs = Some ss ->
-    (* top-level locals: the last declaration of each name *)
-    (forall nm l ofl, top_local_last b nm = Some (l, false, ofl) ->
-       exists s, In s ss /\ s_local s = true /\ s_key s = nm /\ s_decl s = l /\ s_fn s = is_some ofl /\
-                 (forall fl, ofl = Some fl -> s_loc s = fl)) /\
+    parse_bytes no_gbk classify_tok bs = Ok (PR b [] []) -> outline_of_bytes fx_all bs = Some ss ->
+    (* top-level locals: EVERY declaration *)
+    (forall nm l ofl, In (l, false, ofl) (top_local_decls b nm) ->
+       exists s, In s ss /\ s_local s = true /\ s_undecl s = false /\ s_key s = nm /\ s_decl s = l /\ s_fn s = is_some ofl /\
+                 (forall fl, ofl = Some fl -> s_loc s = loc_union fl l)) /\
     (* globals: assigned somewhere, bound nowhere *)
     (forall nm, chk_block (not_named nm) any_target b = true -> asg_block nm b = true ->
-       exists s, In s ss /\ s_local s = false /\ s_key s = nm) /\
-    (* every non-local entry is located at an assignment target `name = value` of the file *)
-    (forall pt s, chk_block any_name pt b = true -> In s ss -> s_local s = false -> pt (entry_triple s) = true).
+       exists s, In s ss /\ s_local s = false /\ s_undecl s = false /\ s_key s = nm) /\
+    (* every non-local entry of a defined name is located at an assignment target `name = value` of the file *)
+    (forall pt s, chk_block any_name pt b = true -> In s ss -> s_local s = false -> s_undecl s = false ->
+                  from_target fx_all pt s).
 Proof.
   intros bs b ss Hp Ho. apply outline_of_bytes_inv in Ho. destruct Ho as [b' [st [Hp' [Ha ->]]]].
   rewrite Hp in Hp'. injection Hp' as <-. split; [|split].
-  - intros nm l ofl Hlast. eapply outline_top_local; eauto.
+  - intros nm l ofl Hin. exact (outline_top_local fx_all _ b st nm l ofl eq_refl Ha Hin).
   - intros nm Hc Hasg. eapply outline_global_complete; eauto.
-  - intros pt s Hc Hin Hl. eapply outline_global_from_target; eauto.
+  - intros pt s Hc Hin Hl Hu. eapply outline_global_from_target; eauto.
 Qed.
 
 Theorem outline_globals_lexical_bytes : forall bs b ss nm,
-    parse_bytes no_gbk classify_tok bs = Ok (PR b [] []) -> outline_of_bytes true bs = Some ss ->
+    parse_bytes no_gbk classify_tok bs = Ok (PR b [] []) -> outline_of_bytes fx_all bs = Some ss ->
     shp_block b = true -> asgU_block nm b = true ->
-    exists s, In s ss /\ s_local s = false /\ s_key s = nm.
+    exists s, In s ss /\ s_local s = false /\ s_undecl s = false /\ s_key s = nm.
 Proof.
   intros bs b ss nm Hp Ho Hshp Hasg. apply outline_of_bytes_inv in Ho. destruct Ho as [b' [st [Hp' [Ha ->]]]].
   rewrite Hp in Hp'. injection Hp' as <-. eapply outline_global_lexical; eauto.
 Qed.
 
-(* ------------------------------------------------------------------ function statements contain their name *)
-(* every function-valued `name = value` target is a function statement: the function's Loc contains the identifier *)
-Definition fn_target_contains (x : gtriple) : bool :=
-  match snd x with Some fl => contains fl (snd (fst x)) | None => true end.
-
-Theorem outline_function_statements : forall bs b ss,
-    parse_bytes no_gbk classify_tok bs = Ok (PR b [] []) -> outline_of_bytes true bs = Some ss ->
-    (forall nm l fl, top_local_last b nm = Some (l, false, Some fl) -> contains fl l = true ->
-       exists s, In s ss /\ s_local s = true /\ s_key s = nm /\ s_decl s = l /\ s_fn s = true /\
-                 contains (s_loc s) (s_decl s) = true) /\
-    (forall s, chk_block any_name fn_target_contains b = true -> In s ss -> s_local s = false ->
-               contains (s_loc s) (s_decl s) = true).
-Proof.
-  intros bs b ss Hp Ho. destruct (outline_complete_bytes bs b ss Hp Ho) as [H1 [_ H3]]. split.
-  - intros nm l fl Hlast Hc. destruct (H1 nm l (Some fl) Hlast) as [s [Hin [Hl [Hk [Hd [Hf Hloc]]]]]].
-    exists s. rewrite (Hloc fl eq_refl), Hd. repeat split; auto.
-  - intros s Hc Hin Hl. destruct (s_fn s) eqn:Efn.
-    + specialize (H3 _ s Hc Hin Hl). unfold fn_target_contains, entry_triple in H3. rewrite Efn in H3. cbn [fst snd] in H3. exact H3.
-    + destruct (outline_nonfn_range bs ss s Ho Hin Efn) as [X _]. exact X.
-Qed.
-
 (* ------------------------------------------------------------------ workspace/symbol: the candidate list of a file *)
 (* every lexically global assigned name is among the candidates that getQuerySymbols collects for the file, named
    exactly nm and located at the identifier of an assignment target `nm = ...` of the file *)
-Theorem ws_candidate : forall n b st nm,
+Theorem ws_candidate : forall fx n b st nm,
     shp_block b = true -> asgU_block nm b = true -> analyse n b = Ok st ->
-    exists w, In w (file_wsyms (finalize st)) /\ w_name w = nm /\
+    exists w, In w (file_wsyms fx (finalize st)) /\ w_name w = nm /\
               forall pt, chk_block any_name pt b = true -> exists ofl, pt (nm, w_loc w, ofl) = true.
 Proof.
-  intros n b st nm Hshp Hasg Ha. pose proof Ha as Ha0. unfold analyse in Ha.
+  intros fx n b st nm Hshp Hasg Ha. pose proof Ha as Ha0. unfold analyse in Ha.
   destruct (all_u nm n) as [_ [_ [_ Hb]]]. pose proof (Hb _ _ _ _ _ Hshp (init_Kn nm) Ha Hasg) as Hm.
   unfold M, assoc_mem in Hm. destruct (assoc_get nm (globs st)) as [v|] eqn:Eg; [|discriminate].
   apply assoc_get_key in Eg. destruct (finalize_facts st) as [_ [_ [_ Hext]]].
@@ -158,9 +147,9 @@ Proof.
     exists (option_map f_loc (v_func v)). cbn [w_loc]. rewrite (vext_loc _ _ _ Hvx). exact HG.
 Qed.
 
-Theorem ws_candidate_bytes : forall bs b st nm,
+Theorem ws_candidate_bytes : forall fx bs b st nm,
     parse_bytes no_gbk classify_tok bs = Ok (PR b [] []) -> analyse (fuel_of_bytes bs) b = Ok st ->
     shp_block b = true -> asgU_block nm b = true ->
-    exists w, In w (file_wsyms (finalize st)) /\ w_name w = nm /\
+    exists w, In w (file_wsyms fx (finalize st)) /\ w_name w = nm /\
               forall pt, chk_block any_name pt b = true -> exists ofl, pt (nm, w_loc w, ofl) = true.
-Proof. intros bs b st nm _ Ha Hs Hu. exact (ws_candidate _ b st nm Hs Hu Ha). Qed.
+Proof. intros fx bs b st nm _ Ha Hs Hu. exact (ws_candidate fx _ b st nm Hs Hu Ha). Qed.
